@@ -88,6 +88,12 @@ func runC16(c *engine.Ctx) {
 					loops = true
 				}
 			}
+			if !ok {
+				// the CFG counter could not show it (counts merged at a join): ask the evaluator, which keeps flags concrete
+				if exactlyOneByEvaluation(start, m.isTerminalCall, isExtract) {
+					ok, bad = true, ""
+				}
+			}
 			c.Decide(r1, engine.FuncName(f), ci.Instr.Pos(), ok, "exactly one sent/error event on every path from a successful extract", bad)
 
 			// R2: topic close after final publish
